@@ -26,6 +26,8 @@ PINNED = [
     ("pinned-beyond-latin1", {"<start>": ["Ω", "€", "\U0001F600", "Ā", "\x80", "\xff"]}),
     ("pinned-more-controls", {"<start>": ["\x08", "\x1b", "\x01a", "\x1f", "\x85"]}),
     ("pinned-literal-escape-texts", {"<start>": ["\\x41", "\\b", "\\r", "\\\\n", "\\\"", "\\x0b", "\\", "\\\\", "\\x5c", "\\x3c"]}),
+    ("pinned-literal-hex-escape-texts", {"<start>": ["\\x61", "\\x5d", "\\x7e", "\\xff", "\\x5cx61", "a\\x62c", "\\\\x61", "\\x6"], "<A>": ["\\x41\\x61"]}),
+    ("pinned-langle-alternatives", {"<start>": ["<elem>"], "<elem>": ["<langle>b>", "x<langle>"], "<langle>": ["<", "&lt;"]}),
     ("pinned-langle-defined", {"<start>": ["<langle>a<b"], "<langle>": ["<"]}),
     ("pinned-langle-chain", {"<start>": ["<langle><langle_0><<langle_1>"], "<langle>": ["x"], "<langle_0>": ["y"], "<langle_1>": ["<"]}),
     ("pinned-lt-everywhere", {"<start>": ["<<A><", "<"], "<A>": ["><", "< >", "<a b>"]}),
